@@ -398,9 +398,13 @@ public:
 
     /// \brief Removes min(count, size() - index) characters starting at index.
     ///
+    /// \pre index <= size()
     /// \returns *this
     constexpr auto erase(size_type index = 0, size_type count = npos) noexcept -> basic_inplace_string&
     {
+        // checked here, before index is turned into an iterator: begin() + index wraps around for huge indices
+        // (for a 4-byte character type index = 2^62 gives begin() again and the range check below would pass)
+        TETL_PRECONDITION(index <= size());
         auto safeCount = etl::min(count, size() - index);
         erase(begin() + index, begin() + index + safeCount);
         return *this;
